@@ -99,7 +99,7 @@ package eval
 
 //@ func (*evalCache).hasConnectionResult
 //@   requires ec != nil && peerOK(src) && peerOK(dst)
-//@   modifies ec.cacheHitsCount
+//@   modifies ec.cacheHitsCount, diskContent { r | true }, fhPath { r | false }
 //@   ensures [C15,C03] hit: hasConnKey == (ec.cache != nil && connKey(src, dst, protocol, port) != ""
 //@         && lruHas(ec.cache)[connKey(src, dst, protocol, port)])
 //@   ensures [C15,C03] val: hasConnKey ==> connResult == lruVal(ec.cache)[connKey(src, dst, protocol, port)]
